@@ -482,7 +482,7 @@ def run_race(case: dict, stats: Stats | None = None) -> dict:
         for a, o in zip(actors, outs):
             if o.get("code") == "E_HASH" and any(op.name == "open_c" and op.outcome == "ok" for op in a.ops):
                 stats.group("probes", "E_HASH_from_recheck")
-    return {"violations": viols, "log": log, "digest": digest(log), "tape": list(tape.values),
+    return {"violations": viols, "log": log, "digest": digest(log), "tape": list(tape.values), "ns": list(tape.ns),
             "fired": [{"actor": f["actor"], "at": f["at"], "kind": f["kind"]} for f in sim.fired], "trace": trace}
 
 
@@ -518,6 +518,107 @@ def abstract_trace(abstract, installs, outs, writers) -> str:
     res = ",".join(f"{names[i]}:{'bh' if writers[i].get('bh') else 'nobh'}:{o['status']}" for i, o in sorted(
         enumerate(outs), key=lambda x: names[x[0]]))
     return " ".join(parts) + " => " + res
+
+
+# --------------------------------------------------------------------------- #
+# L1x / L2x: systematic sweeps of exactly the spaces the property's quantifier names
+# --------------------------------------------------------------------------- #
+
+L1X_ALPHABET = [(k, b) for k in ("content", "changes", "normalize", "content_dry") for b in ("none", "current", "stale", "future")] + [
+    ("ext_valid", "none")]
+
+
+def l1x_count(maxlen: int) -> int:
+    return sum(len(L1X_ALPHABET) ** n for n in range(1, maxlen + 1))
+
+
+def l1x_history(index: int) -> dict:
+    """The index-th history in length-then-lexicographic order over L1X_ALPHABET (all histories up to length 5 of
+    {content, changes, normalize, corrections_only, external modification} x base_hash in {none, current, stale, future})."""
+    n = 1
+    a = len(L1X_ALPHABET)
+    while index >= a ** n:
+        index -= a ** n
+        n += 1
+    digits = []
+    for _ in range(n):
+        digits.append(index % a)
+        index //= a
+    digits.reverse()
+    t = Tape(values=[])
+    steps = []
+    for k, d in enumerate(digits):
+        kind, bh = L1X_ALPHABET[d]
+        st = {"kind": kind, "bhk": bh}
+        mk = f"x{k}{d:x}"
+        if kind in ("content", "content_dry"):
+            st["text"] = f"===DOC===\nMETA:\n  TYPE::TEST\n  VERSION::\"1.0\"\nMARK::{mk}\nK0::v{k}\n===END===\n"
+        elif kind == "changes":
+            st["changes"] = {"MARK": "c" + mk}
+        elif kind == "ext_valid":
+            st["text"] = f"===DOC===\nMETA:\n  TYPE::TEST\n  VERSION::\"1.0\"\nMARK::e{mk}\nK0::x -> y\n===END===\n"
+        steps.append(st)
+    init = "===DOC===\nMETA:\n  TYPE::TEST\n  VERSION::\"1.0\"\nMARK::init\nK0::a -> b\n===END===\n"
+    return {"layer": "L1", "init": init, "steps": steps, "prop": PROP, "seed": 0, "enumerated": True}
+
+
+def canon_writers(init: str) -> list:
+    h = text_hash(init.encode())
+
+    def doc(m):
+        return f"===DOC===\nMETA:\n  TYPE::TEST\n  VERSION::\"1.0\"\nMARK::{m}\nK0::w\n===END===\n"
+
+    return [
+        {"entry": "tool", "mode": "content", "text": doc("A"), "bh": h},
+        {"entry": "tool", "mode": "changes", "changes": {"MARK": "chgB"}, "bh": h},
+        {"entry": "tool", "mode": "normalize", "bh": h},
+        {"entry": "atomic", "mode": "content", "text": docs.canonical(doc("D")), "bh": h},
+        {"entry": "cli", "mode": "content", "text": doc("E"), "bh": h},
+        {"entry": "cli", "mode": "changes", "changes": {"MARK": "chgF"}, "bh": h},
+        {"entry": "tool", "mode": "content", "text": doc("G"), "bh": None},
+        {"entry": "atomic", "mode": "content", "text": docs.canonical(doc("H")), "bh": None},
+    ]
+
+
+L2X_INIT = "===DOC===\nMETA:\n  TYPE::TEST\n  VERSION::\"1.0\"\nMARK::init\nK0::a -> b\n===END===\n"
+
+
+def l2x_pairs() -> list:
+    n = len(canon_writers(L2X_INIT))
+    return [(i, j) for i in range(n) for j in range(i, n)]
+
+
+def run_l2x_pair(i: int, j: int, stats: Stats, viols: list, cap: int = 20000):
+    """ALL interleavings of two writers at the granularity the property names (switch points: each read of the target,
+    each lock operation, the replace), by depth-first enumeration of the schedule tape."""
+    ws = canon_writers(L2X_INIT)
+    wi, wj = copy.deepcopy(ws[i]), copy.deepcopy(ws[j])
+    if i == j and wj.get("text"):
+        wj["text"] = wj["text"].replace("MARK::", "MARK::twin_")
+    if i == j and wj.get("changes"):
+        wj["changes"] = {"MARK": "twin_" + str(j)}
+    prefix: list = []
+    n = 0
+    while n < cap:
+        case = {"layer": "L2", "init": L2X_INIT, "writers": [wi, wj], "knobs": {"sched": "enum"}, "tape": {"values": list(prefix)},
+                "prop": PROP, "seed": 0, "enumerated": [i, j]}
+        res = run_race(case, stats)
+        n += 1
+        for v in res["violations"]:
+            if len(viols) < 30:
+                viols.append({"clause": v["clause"], "signature": v["signature"], "detail": v["detail"], "case": case})
+        vals, ns = res["tape"], res["ns"]
+        k = len(vals) - 1
+        while k >= 0 and vals[k] >= ns[k] - 1:
+            k -= 1
+        if k < 0:
+            stats.inc("l2x_pairs_exhausted")
+            break
+        prefix = vals[:k] + [vals[k] + 1]
+    else:
+        stats.inc("l2x_pairs_capped")
+    stats.inc("l2x_schedules", n)
+    stats.group("l2x_schedules_per_pair", f"{i}-{j}", n)
 
 
 # --------------------------------------------------------------------------- #
@@ -695,6 +796,13 @@ def units(tier: str, vseed: int) -> list:
     else:
         plan = [("L1", 1600, 500), ("L2", 3200, 400), ("L3", 320, 300)]
     out = []
+    for (i, j) in l2x_pairs():
+        out.append({"layer": "L2x", "i": i, "j": j, "start": 0, "count": 1})
+    l1max = 3 if tier == "quick" else 5
+    total = l1x_count(l1max)
+    step = 400 if tier == "quick" else 4000
+    for lo in range(0, total, step):
+        out.append({"layer": "L1x", "lo": lo, "hi": min(lo + step, total), "start": lo, "count": step, "maxlen": l1max})
     for layer, n, per in plan:
         for i in range(n):
             out.append({"layer": layer, "start": i * per, "count": per, "vseed": vseed, "tier": tier})
@@ -712,6 +820,18 @@ def run_unit(unit: dict):
                 res = run_case(gen_case(layer, unit["vseed"], j, "quick"))
                 stats.sample("det", (f"{layer}{j}", res["digest"] + ":" + ",".join(v["clause"] for v in res["violations"])),
                              cap=10 ** 9)
+        return stats, viols
+    if unit["layer"] == "L2x":
+        run_l2x_pair(unit["i"], unit["j"], stats, viols)
+        return stats, viols
+    if unit["layer"] == "L1x":
+        for idx in range(unit["lo"], unit["hi"]):
+            case = l1x_history(idx)
+            res = run_case(case, stats)
+            stats.inc("l1x_histories")
+            for v in res["violations"]:
+                if len(viols) < 30:
+                    viols.append({"clause": v["clause"], "signature": v["signature"], "detail": v["detail"], "case": case})
         return stats, viols
     for j in range(unit["start"], unit["start"] + unit["count"]):
         case = gen_case(unit["layer"], unit["vseed"], j, unit["tier"])
@@ -852,6 +972,14 @@ def main(tier: str, seed: int, args) -> int:
         "l1_histories": c.get("l1_histories", 0), "l1_steps": c.get("l1_steps_total", 0),
         "l1_distinct_history_shapes": len(stats.sets.get("l1_history_shapes", ())),
         "l1_step_results": dict(sorted(stats.groups.get("l1_steps", {}).items())),
+        "l1x_exhaustive_histories": {"alphabet": [f"{k}/{b}" for k, b in L1X_ALPHABET], "max_length": 3 if tier == "quick" else 5,
+                                     "histories": c.get("l1x_histories", 0), "total_in_space": l1x_count(3 if tier == "quick" else 5),
+                                     "complete": c.get("l1x_histories", 0) == l1x_count(3 if tier == "quick" else 5)},
+        "l2x_exhaustive_two_writer_interleavings": {
+            "switch_points": "before each open-for-read of the target, each flock operation and each replace onto the target",
+            "writer_kinds": 8, "pairs": len(l2x_pairs()), "pairs_exhausted": c.get("l2x_pairs_exhausted", 0),
+            "pairs_capped": c.get("l2x_pairs_capped", 0), "schedules": c.get("l2x_schedules", 0),
+            "schedules_per_pair": dict(stats.groups.get("l2x_schedules_per_pair", {}))},
         "l2_runs": c.get("l2_runs", 0), "l2_yield_points": c.get("yield_points", 0),
         "l2_distinct_target_orders": len(stats.sets.get("l2_target_orders", ())),
         "l2_distinct_full_traces": len(stats.sets.get("l2_traces", ())),
